@@ -1,6 +1,7 @@
 import Dnp3.Driver.Link
 import Dnp3.Driver.Transport
 import Dnp3.Driver.Outstation
+import Dnp3.Driver.Convert
 open Dnp3 Dnp3.Driver
 
 partial def loop {σ : Type} (h : IO.FS.Stream) (out : IO.FS.Stream) (step : σ → String → σ × List String) (s : σ) : IO Unit := do
@@ -22,4 +23,5 @@ def main (args : List String) : IO UInt32 := do
   | ["link"] => loop stdin stdout linkStep (Reader.new .close .stream 2048); return 0
   | ["transport"] => loop stdin stdout transportStep TState.init; return 0
   | ["outstation"] => loop stdin stdout outstationStep {}; return 0
+  | ["convert"] => loop stdin stdout convertStep (CState.init 100 2048 false); return 0
   | _ => IO.eprintln "usage: dnp3model <engine>"; return 2
